@@ -28,6 +28,51 @@ type keyArgs struct {
 	optNum   int64 // sunmd5: DisableSaltSeparator (0/1); argon2: version
 }
 
+// keyOf calls the scheme's Key and returns the key.
+func keyOf(a keyArgs) (key []byte, err error) {
+	n := func(i int) int64 {
+		if i < len(a.nums) {
+			return a.nums[i]
+		}
+		return 0
+	}
+	switch a.tag {
+	case 1:
+		return md5.Key(a.pw, a.salt)
+	case 5:
+		return sha256.Key(a.pw, a.salt, uint32(n(0)))
+	case 6:
+		return sha512.Key(a.pw, a.salt, uint32(n(0)))
+	case 7:
+		return sha1.Key(a.pw, a.salt, uint32(n(0)))
+	case 8:
+		var o *sunmd5.CompatibilityOptions
+		if a.hasOpts {
+			o = &sunmd5.CompatibilityOptions{Prefix: a.prefix, DisableSaltSeparator: a.optNum != 0}
+		}
+		return sunmd5.Key(a.pw, a.salt, uint32(n(0)), o)
+	case 9:
+		return des.Key(a.pw, a.salt)
+	case 10:
+		return desext.Key(a.pw, a.salt, uint32(n(0)))
+	case 2:
+		var o *bcrypt.CompatibilityOptions
+		if a.hasOpts {
+			o = &bcrypt.CompatibilityOptions{Prefix: a.prefix}
+		}
+		return bcrypt.Key(a.pw, a.salt, uint8(n(0)), o)
+	case 3:
+		return nthash.Key(a.pw)
+	case 4:
+		var o *argon2.CompatibilityOptions
+		if a.hasOpts {
+			o = &argon2.CompatibilityOptions{Prefix: a.prefix, Version: int(a.optNum)}
+		}
+		return argon2.Key(a.pw, a.salt, uint32(n(0)), uint32(n(1)), uint8(n(2)), o)
+	}
+	return nil, nil
+}
+
 // callKey invokes the scheme's Key with a deadline; a call still running after the deadline has passed
 // every guard (it is deriving), which is all C14 needs to know.
 func callKey(a keyArgs) (err error, timedOut bool, pan interface{}) {
